@@ -75,10 +75,16 @@ struct Doer : dv::Typed<TE, Doer> {
 		auto* sh = dynamic_cast<dv::Holder<TE, D>*>(src);
 		if(sh == nullptr) { throw dv::unsupported("rank mismatch"); }
 		multi::subarray<TE, D, TE*> s(sh->v.layout(), const_cast<TE*>(sh->v.base()));  // NOLINT
-		if(what == "assign") { d = s; }
-		else if(what == "assign_const") { d = sh->v; }
+		// a third of the view assignments take their source through a pointer-to-const view (another static type than
+		// the destination's: the converting overloads operator=(const_subarray<TT, D, As...> const&) & / &&); which
+		// third is a function of the operands, so that a replay takes the same path
+		multi::const_subarray<TE, D, TE const*> cs(sh->v.layout(), static_cast<TE const*>(sh->v.base()));
+		auto const hsum = static_cast<long>(d.num_elements()) * 7 + static_cast<long>(dv::tup_to_vec(s.strides())[0]) * 3 + static_cast<long>(dv::tup_to_vec(d.strides())[0]);
+		bool const conv = ((hsum % 3) + 3) % 3 == 0;
+		if(what == "assign") { if(conv) { d = cs; } else { d = s; } }
+		else if(what == "assign_const") { if(conv) { d = std::as_const(cs); } else { d = sh->v; } }
 		else if(what == "assign_elems") { d.elements() = s.elements(); }
-		else if(what == "assign_rv") { std::move(d) = s; }
+		else if(what == "assign_rv") { if(conv) { std::move(d) = cs; } else { std::move(d) = s; } }
 		else if(what == "assign_elems_named") { auto&& e = d.elements(); e = std::as_const(sh->v).elements(); }
 		else if(what == "swap") { swap(std::move(d), std::move(s)); }
 		else if(what == "move") { d = s.element_moved(); }
